@@ -69,6 +69,33 @@ def run(chk, replay=None):
                 if rc != 0 and not whole_line_prefix(so, full) and kind == 'cut':
                     chk.violate('damaged gzip: output is not a whole-line prefix of the fault-free output', dict(case, tail=so[-200:].decode('utf-8', 'replace')), tags=['cli', 'prefix'])
         chk.streams.append({'stream': 'gzip cut / flipped at offsets through the CLI', 'offsets': len(list(offs))})
+        # archives of several concatenated members (log shippers, cat a.gz b.gz): every header and trailer byte of every member, plus a sample
+        parts = [b'\n'.join(ls[i::3]) + b'\n' for i in range(3)]
+        members = [streamlib.gz_bytes(x) for x in parts]
+        mgz = b''.join(members)
+        f = os.path.join(d, 'multi.log.gz'); open(f, 'wb').write(mgz)
+        rc, mfull, se = streamlib.cli_run(['redact', f, '-n'])
+        if rc != 0: chk.violate('CLI: intact multi-member gzip failed', {'rc': rc}, tags=['cli'])
+        starts = [0, len(members[0]), len(members[0]) + len(members[1])]
+        moffs = set()
+        for st, m in zip(starts, members):
+            moffs |= set(range(st, st + 10)) | set(range(st + len(m) - 8, st + len(m)))
+        moffs |= set(range(len(mgz))) if th else set(rng.sample(range(len(mgz)), min(len(mgz), 40)))
+        for k in sorted(moffs):
+            for kind, mask in (('cut', 0), ('flip', 0x20), ('flip', 0x01), ('flip', 0x80)):
+                if kind == 'cut' and k in starts: continue          # a cut exactly between two members IS a shorter, intact archive
+                bad = mgz[:k] if kind == 'cut' else mgz[:k] + bytes([mgz[k] ^ mask]) + mgz[k + 1:]
+                g = os.path.join(d, 'badm.log.gz'); open(g, 'wb').write(bad)
+                rc, so, se = streamlib.cli_run(['redact', g, '-n'])
+                chk.count(); chk.nontriv(('mgz', kind, mask, k)); chk.dist('fault_mgz_' + kind)
+                case = {'fault': 'multi-member gzip ' + kind, 'mask': mask, 'offset': k, 'member_starts': starts, 'rc': rc}
+                if rc == 2 or rc < 0:
+                    chk.violate('CLI crashed on damaged gzip', dict(case, stderr=se[-300:].decode('utf-8', 'replace')), tags=['cli', 'panic'])
+                if rc == 0 and so != mfull:
+                    chk.violate('damaged multi-member gzip: success reported for incomplete / different output', dict(case, out_len=len(so), full_len=len(mfull)), tags=['cli', 'silent'])
+                if rc != 0 and not whole_line_prefix(so, mfull) and kind == 'cut':
+                    chk.violate('damaged gzip: output is not a whole-line prefix of the fault-free output', dict(case, tail=so[-200:].decode('utf-8', 'replace')), tags=['cli', 'prefix'])
+        chk.streams.append({'stream': 'three-member gzip archive cut / flipped (3 masks) at every header and trailer byte + sample, through the CLI', 'offsets': len(moffs)})
         p = os.path.join(d, 'in.log'); open(p, 'wb').write(data)
         rc, so, se = streamlib.cli_run(['redact', p, '-o', '/dev/full'])
         chk.count()
